@@ -3,7 +3,7 @@ import tracemalloc
 import linecache
 
 complement = str.maketrans("ACGT", "TGCA")
-tag_regex = r"^[A-Za-z][A-Za-z][:][AifZHB][:][ !-~]*$"
+tag_regex = r"^[A-Za-z][A-Za-z0-9][:][AifZHB][:][ !-~]*$"
 
 types_regex = {
     "A": r"^[!-~]$",
